@@ -24,6 +24,8 @@ var splitTable = map[string][3]string{
 }
 
 func checkC03(p *load.Program, r *kit.Report) {
+	importRules(p, r, "C09", "the split rules are applied at the height ProcessHeader derives from the stored hash→height labels: a wrong label shifts the split height", 11, nil, "HEIGHT-LABEL")
+	importRules(p, r, "C14", "the node stops reading after it refused a peer: a read-ahead buffer on the connection would still hold (and dispatch) the peer's next message", 1, nil, "READ-AHEAD")
 	r.NotDecided = "that the literal hashes are the hashes of the real fork blocks (needs hashing, i.e. execution); the scripted-peer behaviour end to end; message sequences as such."
 	r.Rule("WRITERS", "disableSplitProtection/disableDifficulty set true only in functions without production callers; BitcoinNode.verified/isReady receive true only in accept()", 4)
 	r.Rule("GUARD-DOM", "under disableSplitProtection=false every effect of ProcessHeader is behind the refusal loop over repo.splits (split.Height == previousHeight+1 && split.AfterHash.Equal(&hash) → ErrWrongChain) and, when previousHeight+1 == requiredSplit.Height, behind requiredSplit.AfterHash.Equal(&hash); VerifyHeader returns nil only behind requiredSplit.AfterHash.Equal(hash); accept() only behind VerifyHeader()==nil and HandshakeIsComplete()", 8)
@@ -399,7 +401,7 @@ func checkHeadersVerify(p *load.Program, r *kit.Report) {
 	// not inside a loop
 	{
 		bad := ""
-		arg := callOf(vcall.Call.Args[len(vcall.Call.Args)-1], 0)
+		arg := callOf(kit.Provenance(vcall.Call.Args[len(vcall.Call.Args)-1]), 0)
 		if arg == nil || kit.CallID(arg) != R+".deserializeBlockHeader" {
 			bad = "verified header is not the one read from the message"
 		} else if inCycle(arg.Block()) {
